@@ -45,10 +45,11 @@ def run_rowsupp():
     with matrix.backend('numpy'):
         for values, rowptr, colidx, nrows, ncols in _small_matrices():
             A = matrix.assemble_csr(values, rowptr, colidx, ncols)
-            for tol in (0, 0.75, 2.5):
-                want = numpy.array([any(abs(values[k]) > tol for k in range(rowptr[r], rowptr[r + 1])) for r in range(nrows)], dtype=bool)
+            for tol in (0, 0.5, 0.75, 2.5):
+                want = numpy.array([any(abs(values[k]) > tol for k in range(rowptr[r], rowptr[r + 1])) for r in range(nrows)], dtype=bool)  # NaN > tol is False
                 try:
-                    got = A.rowsupp(tol) if tol else A.rowsupp()
+                    # the base-class method (NumpyMatrix overrides rowsupp; scipy/MKL matrices inherit this one), run on the numpy matrix's COO export
+                    got = matrix.Matrix.rowsupp(A, tol) if tol else matrix.Matrix.rowsupp(A)
                 except Exception as e:
                     print('rowsupp(%s) of CSR values=%s rowptr=%s colidx=%s raised %s: %s' % (tol, values.tolist(), rowptr.tolist(), colidx.tolist(), type(e).__name__, e))
                     print('REPLAY: VIOLATION-CONFIRMED')
